@@ -123,7 +123,7 @@ def byKeyFirst {α κ} [DecidableEq κ] (keysOf : α → List κ) (l : List α) 
   buildFirst keysOf l k
 
 /-- `Get(i)` (`&p.List[i]`; out of range panics in Go = `none`). -/
-def get {α} (l : List α) (i : Nat) : Option α := l[i]?
+def getAt {α} (l : List α) (i : Nat) : Option α := l[i]?
 
 /-! ## `OneofFields`: unconditional assignment (last-wins, as coded) -/
 
